@@ -19,6 +19,7 @@ struct MockReq
     int complete = 0, polls = 0, idx = 0;
     int held = 0;    // harness-controlled: cannot complete yet (no deviation involved)
     int pending_polls = 0;    // harness-controlled: the first polls find the request pending (no deviation involved)
+    int persistent = 0, inactive = 0;    // persistent request (MPI_Send_init/Recv_init + MPI_Start): completion leaves the handle in place, inactive
 };
 static MockReq g_reqs[48];
 static int g_nreq = 0;
@@ -54,6 +55,7 @@ static bool mock_poll(MockReq* m)
     if (pending) { ++g_pending_answers; return false; }
     *m->buffer = m->value;             // the transfer completes: data becomes visible now
     m->complete = 1;
+    if (m->persistent) m->inactive = 1;
     pmc_progress();
     return true;
 }
@@ -75,7 +77,8 @@ int MPI_Test(MPI_Request* req, int* flag, MPI_Status*)
     if (*req == MPI_REQUEST_NULL) { *flag = 1; return MPI_SUCCESS; }
     if (!is_mock(*req)) pmc_fail("harness", "MPI_Test on an unknown request");
     MockReq* m = (MockReq*) *req;
-    if (mock_poll(m)) { *req = MPI_REQUEST_NULL; *flag = 1; }
+    if (m->persistent && m->inactive) { *flag = 1; return MPI_SUCCESS; }    // inactive handle: "complete", empty status
+    if (mock_poll(m)) { if (!m->persistent) *req = MPI_REQUEST_NULL; *flag = 1; }
     else *flag = 0;
     return MPI_SUCCESS;
 }
@@ -90,9 +93,10 @@ int MPI_Testany(int count, MPI_Request reqs[], int* index, int* flag, MPI_Status
     for (int i = 0; i < count; ++i)
     {
         if (reqs[i] == MPI_REQUEST_NULL) continue;
+        if (is_mock(reqs[i]) && ((MockReq*) reqs[i])->persistent && ((MockReq*) reqs[i])->inactive) continue;    // inactive handles are ignored
         any_active = true;
         if (!is_mock(reqs[i])) pmc_fail("request-array-corrupted", "MPI_Testany: entry %d of %d in the request array is not a request (the array was modified or freed while it was being polled)", i, count);
-        if (mock_poll((MockReq*) reqs[i])) { reqs[i] = MPI_REQUEST_NULL; *index = i; *flag = 1; return MPI_SUCCESS; }
+        if (mock_poll((MockReq*) reqs[i])) { if (!((MockReq*) reqs[i])->persistent) reqs[i] = MPI_REQUEST_NULL; *index = i; *flag = 1; return MPI_SUCCESS; }
     }
     *flag = any_active ? 0 : 1;
     *index = MPI_UNDEFINED;
@@ -106,9 +110,10 @@ int MPI_Testsome(int incount, MPI_Request reqs[], int* outcount, int indices[], 
     for (int i = 0; i < incount; ++i)
     {
         if (reqs[i] == MPI_REQUEST_NULL) continue;
+        if (is_mock(reqs[i]) && ((MockReq*) reqs[i])->persistent && ((MockReq*) reqs[i])->inactive) continue;    // inactive handles are ignored
         any_active = true;
         if (!is_mock(reqs[i])) pmc_fail("request-array-corrupted", "MPI_Testsome: entry %d of %d in the request array is not a request (the array was modified or freed while it was being polled)", i, incount);
-        if (mock_poll((MockReq*) reqs[i])) { reqs[i] = MPI_REQUEST_NULL; indices[n++] = i; }
+        if (mock_poll((MockReq*) reqs[i])) { if (!((MockReq*) reqs[i])->persistent) reqs[i] = MPI_REQUEST_NULL; indices[n++] = i; }
     }
     *outcount = any_active ? n : MPI_UNDEFINED;
     return MPI_SUCCESS;
@@ -290,6 +295,128 @@ static void detached_prog()
     pmc_outcome("mode=%d hold=%d", mode, hold);
 }
 
+// The non-blocking MPI call itself fails (returns an error code; the error handler is MPI_ERRORS_RETURN or
+// pika's own): the sender completes exactly once, with an error.  null_request: what the failed call leaves in
+// the request (MPI leaves it undefined: MPI_REQUEST_NULL, or a handle that tests as complete / as pending).
+struct CountingReceiver
+{
+    PIKA_STDEXEC_RECEIVER_CONCEPT
+    int* counts;    // [0] value, [1] error, [2] stopped, [3] alive
+    void hit(int k) const
+    {
+        if (!counts[3]) pmc_fail("signal-after-destroy", "a completion signal arrived after the operation state was destroyed");
+        if (counts[0] + counts[1] + counts[2] != 0) pmc_fail("signal-count", "the receiver of a failed MPI call was signalled a second time (value %d, error %d, stopped %d so far)", counts[0], counts[1], counts[2]);
+        ++counts[k];
+        pmc_progress();
+    }
+    template <typename... Ts> void set_value(Ts&&...) && noexcept { hit(0); }
+    void set_error(std::exception_ptr) && noexcept { hit(1); }
+    void set_stopped() && noexcept { hit(2); }
+    constexpr ex::empty_env get_env() const& noexcept { return {}; }
+};
+static void failing_call_prog()
+{
+    static St s;
+    s = St{};
+    g = &s;
+    g_nreq = 0;
+    g_pending_answers = 0;
+    static const int modes[] = {30, 10, 18, 31, 26, 2, 0, 1};
+    int mode = modes[pmc_choose(8, 0)];
+    static int leftover;
+    leftover = pmc_choose(3, 0);    // 0: MPI_REQUEST_NULL, 1: a handle that tests complete, 2: a handle that first tests pending
+    static int counts[4], buf[1];
+    counts[0] = counts[1] = counts[2] = 0;
+    counts[3] = 1;
+    pmc_on_stuck(on_stuck);
+    rt::config c;
+    c.workers = 2;
+    rt::start(c);
+    mpi::detail::set_completion_mode(mode);
+    {
+        mpi::enable_polling ep(mpi::exception_mode::no_handler);
+        rt::spawn([&] {
+            auto snd = mpi::transform_mpi(ex::just(&buf[0], 100), [](int* b, int v, MPI_Request* r) {
+                if (leftover == 0) *r = MPI_REQUEST_NULL;
+                else { *r = mock_start(b, v); ((MockReq*) *r)->pending_polls = leftover == 2 ? 1 : 0; }
+                return MPI_ERR_OTHER;
+            });
+            {
+                auto op = ex::connect(std::move(snd), CountingReceiver{counts});
+                ex::start(op);
+                // the call may be made on another task (modes without the inline-request flag transfer first)
+                for (int k = 0; k < 3000 && counts[0] + counts[1] + counts[2] == 0; ++k) pika::this_thread::suspend(pika::threads::detail::thread_schedule_state::pending, "C20 failing call");
+                for (int k = 0; k < 6; ++k) pika::this_thread::suspend(pika::threads::detail::thread_schedule_state::pending, "C20 failing call");
+                PMC_ASSERT(counts[0] + counts[1] + counts[2] == 1, "signal-count", "failed MPI call: %d completion signals after start (value %d, error %d, stopped %d; mode %d)", counts[0] + counts[1] + counts[2], counts[0], counts[1], counts[2], mode);
+                counts[3] = 0;
+            }
+            ++g->finished;
+        });
+        pika::wait();
+    }
+    rt::stop();
+    PMC_ASSERT(counts[1] == 1 && counts[0] == 0 && counts[2] == 0, "wrong-channel", "a non-blocking MPI call that returned an error code completed with value %d / error %d / stopped %d (mode %d)", counts[0], counts[1], counts[2], mode);
+    PMC_ASSERT(s.finished == 1, "task-lost", "task did not finish");
+    pmc_outcome("mode=%d leftover=%d", mode, leftover);
+}
+
+// A persistent request (MPI_Recv_init + MPI_Start, started through transform_mpi) is started, completed and started
+// again: MPI leaves the handle of a completed persistent request in the array it tested (inactive), so the slot
+// must be retired by pika itself; every start signals its receiver exactly once
+static void persistent_prog()
+{
+    static St s;
+    s = St{};
+    g = &s;
+    g_nreq = 0;
+    g_pending_answers = 0;
+    static const int modes[] = {30, 10, 18, 31, 26, 2};
+    int mode = modes[pmc_choose(6, 0)];
+    static int buf[1], rounds_done;
+    buf[0] = -1;
+    rounds_done = 0;
+    s.nreq = 1;
+    pmc_on_stuck(on_stuck);
+    rt::config c;
+    c.workers = 2;
+    rt::start(c);
+    mpi::detail::set_completion_mode(mode);
+    {
+        mpi::enable_polling ep(mpi::exception_mode::no_handler);
+        rt::spawn([&] {
+            rt::watch_self("req0");
+            for (int round = 0; round < 3; ++round)
+            {
+                int before = g->signalled[0];
+                auto snd = mpi::transform_mpi(ex::just(&buf[0], 100 + round), [](int* b, int v, MPI_Request* r) {
+                    // MPI_Start on the one persistent request: same handle every round
+                    if (g_nreq == 0) mock_start(b, v);
+                    MockReq& m = g_reqs[0];
+                    m.persistent = 1; m.inactive = 0; m.complete = 0; m.value = v;
+                    m.pending_polls = 1;    // not complete at the eager test: it goes to the polling vectors
+                    *r = (MPI_Request) &m;
+                    return MPI_SUCCESS;
+                });
+                rt::tt::sync_wait(std::move(snd) | ex::then([round]() {
+                    ++g->signalled[0];
+                    g->complete_at_signal[0] = g_reqs[0].complete;
+                    g->ok_data[0] = buf[0] == 100 + round;
+                    pmc_progress();
+                }));
+                PMC_ASSERT(g->signalled[0] == before + 1, "signal-count", "start %d of the persistent request: its receiver was signalled %d times", round + 1, g->signalled[0] - before);
+                PMC_ASSERT(g->complete_at_signal[0] == 1 && g->ok_data[0] == 1, "signalled-before-complete", "start %d of the persistent request: complete-at-signal %d, data ok %d", round + 1, g->complete_at_signal[0], g->ok_data[0]);
+                ++rounds_done;
+            }
+            ++g->finished;
+        });
+        pika::wait();
+        PMC_ASSERT(rounds_done == 3, "wait-returned-early", "pika::wait() returned after %d of 3 starts of the persistent request had completed", rounds_done);
+    }
+    rt::stop();
+    PMC_ASSERT(s.signalled[0] == 3 && s.finished == 1, "signal-count", "3 starts of a persistent request, receiver signalled %d times", s.signalled[0]);
+    pmc_outcome("mode=%d", mode);
+}
+
 int main(int argc, char** argv)
 {
     static const char* sites = "mpi_polling|transform_mpi|mpi_helpers|global_activity_count";
@@ -301,6 +428,8 @@ int main(int argc, char** argv)
         {"two_requests_polling_pool", mpi_prog<2, 1, 1>, 1, 1, 0.3, 0.2, 1, "two requests with a dedicated polling pool (8 completion modes): one worker appends a request while the pool thread is inside an MPI test call", sites, nullptr},
         {"requests_plain_accesses", mpi_prog<3, 0, 2>, 1, 2, 0.3, 0.2, 1, "three requests polled by both workers; besides the atomics, every plain load and store of compact_vectors / the request and callback vectors in the polling function is a scheduling point (the polling module is built with memory-access instrumentation): the vectors are plain data that only the polling lock protects", sites, nullptr, "compact_vectors|poll_multithreaded"},
         {"detached_request", detached_prog, 1, 2, 0.2, 0.2, 1, focus, sites, nullptr},
+        {"failing_call", failing_call_prog, 1, 2, 0.1, 0.1, 1, "the MPI call itself returns an error code: exactly one completion, an error", sites, nullptr},
+        {"persistent_request", persistent_prog, 1, 2, 0.1, 0.1, 1, "a persistent request started three times (the completed handle stays in the tested array, inactive)", sites, nullptr},
         {"many_requests_34", many_prog<34>, 0, 1, 0.1, 0.2, 0, "34 outstanding requests, the first 33 held back until the last one has completed (chunked testing of the polling vector)", sites, nullptr},
     };
     static const char* assumptions[] = {"sequentially consistent interleavings only", "MPI is mocked: requests created by the harness, MPI_Test/Testany/Testsome answered by the explorer; real OpenMPI timing is not exercised",
